@@ -59,6 +59,18 @@ CLAIMED.update({
          "The guarantee of each fault kind is argued in generators/faults.rs; sites where the guarantee does not hold (inferred type arguments, literal merged into INT_MIN) are excluded or discarded and counted.",
          "DESIGN.md §4 C06"),
 })
+CLAIMED.update({
+ "C12": ("exploration",
+         "differential property testing across fresh processes: each generated program (accepted or carrying injected errors) is compiled in 8 fresh processes with different RAYON_NUM_THREADS; verdict, rendered diagnostics and behaviour of the emitted artefacts are compared",
+         "Fresh processes give fresh hash seeds and thread pools; verdicts and diagnostics text must be byte-identical, and every distinct emitted WebAssembly / TypeScript artefact is executed and must behave identically. Byte identity of artefacts is only a metric (they usually differ).",
+         "Sampling of hash seeds and schedules, no control over them: low-probability interleaving faults can be missed (stated in DESIGN.md). A failure of this check is by nature not always reproducible; the first observation is reported.",
+         "DESIGN.md §4 C12"),
+ "C13": ("exploration",
+         "metamorphic property testing: meaning-preserving rewrites applied on the typed IR of generated accepted and rejected programs; checker verdict and compiled behaviour compared before/after",
+         "Nine rewrites (alpha-renaming, class and member permutation, parenthesis / block wrapping, dropping let / lambda annotations and explicit type arguments, splitting a class into a new module) are applied by construction on the generator's IR; the verdict must not flip (for annotation-dropping rewrites a rejection of the less annotated form is only counted), and both forms' emitted WebAssembly must behave the same.",
+         "Rewrites are meaning-preserving by construction on the IR (unique names, imports derived). Pairs the compiler cannot compile/load are C03's.",
+         "DESIGN.md §4 C13"),
+})
 NOT_YET = {}
 
 props = [json.loads(l) for l in open(os.path.join(HERE, "properties.jsonl"))]
